@@ -942,6 +942,61 @@ func jumpStarts(j jump) [][2]int64 {
 	return out
 }
 
+// ---- spelled-out full sets in the day pair ---------------------------------------------
+
+func fullSetSpecs() []string {
+	fullDom := []string{"1-31", "1-31/1", "1/1", "1-15,16-31", "1,2-31", "1-31/2,2-31/2"}
+	fullDow := []string{"0-6", "sun-sat", "SUN-SAT/1", "0/1", "0,1,2,3,4,5,6", "0-3,4-6", "sun,mon,tue,wed,thu,fri,sat"}
+	partDom := []string{"13", "1,15", "28-31", "*/2"}
+	partDow := []string{"5", "MON-FRI", "0,6", "*/2"}
+	var pairs [][2]string
+	for _, d := range fullDom {
+		for _, w := range partDow {
+			pairs = append(pairs, [2]string{d, w})
+		}
+	}
+	for _, w := range fullDow {
+		for _, d := range partDom {
+			pairs = append(pairs, [2]string{d, w})
+		}
+	}
+	for _, d := range fullDom[:3] {
+		for _, w := range fullDow[:3] {
+			pairs = append(pairs, [2]string{d, w})
+		}
+	}
+	// controls: the same partners against a real star
+	for _, w := range partDow {
+		pairs = append(pairs, [2]string{"*", w}, [2]string{"?", w})
+	}
+	for _, d := range partDom {
+		pairs = append(pairs, [2]string{d, "*"}, [2]string{d, "?"})
+	}
+	var out []string
+	for _, h := range []string{"0", "12"} {
+		for _, m := range []string{"*", "2"} {
+			for _, p := range pairs {
+				out = append(out, "0 0 "+h+" "+p[0]+" "+m+" "+p[1])
+			}
+		}
+	}
+	return out
+}
+
+func fullSetStarts() [][2]int64 {
+	var out [][2]int64
+	k := 0
+	for t := time.Date(2021, 1, 30, 0, 0, 0, 0, time.UTC); t.Before(time.Date(2021, 3, 4, 0, 0, 0, 0, time.UTC)); t = t.Add(3*time.Hour + 7*time.Minute) {
+		ns := int64(0)
+		if k%2 == 1 {
+			ns = 500000000
+		}
+		out = append(out, [2]int64{t.Unix(), ns})
+		k++
+	}
+	return out
+}
+
 // ---- driver side -------------------------------------------------------------
 
 type worker struct {
@@ -1130,7 +1185,7 @@ func run(r *enumx.Run, replay *enumx.ReplayCase) {
 	if !subset(wideQuick, wideThorough) || !subset(windowQuick, windowThorough) || !subset(windowThorough, wideThorough) {
 		panic("menu inclusion broken: quick must explore a subset of thorough")
 	}
-	r.Rule("next: each case is one (schedule, zone, start instant) triple: kit's Next(t) against the reference scan of absolute time. Schedules: full product of a term menu per field. Start instants per zone: a regular grid 2005-2030 (step 97d5h43m17.25s) for the wide menu, and for the window menu every 7 minutes from -50h to +4h around every UTC-offset change of the zone in 2005-2024 (alternating whole-second and half-second starts, plus the instant itself and one second before). Also @every durations x starts (closed form) and rarely/never matching schedules for the five-year horizon, a family around every UTC-offset change of at least 23 h (a skipped or repeated local day) of the date-line zones 1840-2037, and a boundary family (29 February schedules - the only ones of this dialect with gaps of more than a year - from starts in the years around 1900, 2000, 2100, 2200, 2400 in four zones). Horizon oracle: with M the reference's earliest match, kit must return M if M <= t+5 calendar years (t.AddDate(5,0,0) on the zone's wall clock, inclusive: 'within five years'); must return the zero time if no match exists up to the end of calendar year year(t+1s)+5 (the documented search bound of the implementation: 'if no time is found within five years, return zero', searched to the end of that calendar year); and may return either M or the zero time when M is more than five years after t but still inside calendar year year(t+1s)+5 - the statement (zero: none within five years) and the unchanged implementation (returns M) differ there, and nothing is claimed. A case is non-trivial when the answer is not simply the next second. A call of Next that does not return within 5 s (confirmed once per key with 15 s) is a violation; the remaining starts of that window before the transition (then: of that window) are not tried for that schedule and are counted as skipped.")
+	r.Rule("next: each case is one (schedule, zone, start instant) triple: kit's Next(t) against the reference scan of absolute time. Schedules: full product of a term menu per field. Start instants per zone: a regular grid 2005-2030 (step 97d5h43m17.25s) for the wide menu, and for the window menu every 7 minutes from -50h to +4h around every UTC-offset change of the zone in 2005-2024 (alternating whole-second and half-second starts, plus the instant itself and one second before). Also @every durations x starts (closed form) and rarely/never matching schedules for the five-year horizon, a family of day pairs in which a field spells out its whole range without '*' / '?' (restricted whatever its values: either-day rule with a restricted partner), a family around every UTC-offset change of at least 23 h (a skipped or repeated local day) of the date-line zones 1840-2037, and a boundary family (29 February schedules - the only ones of this dialect with gaps of more than a year - from starts in the years around 1900, 2000, 2100, 2200, 2400 in four zones). Horizon oracle: with M the reference's earliest match, kit must return M if M <= t+5 calendar years (t.AddDate(5,0,0) on the zone's wall clock, inclusive: 'within five years'); must return the zero time if no match exists up to the end of calendar year year(t+1s)+5 (the documented search bound of the implementation: 'if no time is found within five years, return zero', searched to the end of that calendar year); and may return either M or the zero time when M is more than five years after t but still inside calendar year year(t+1s)+5 - the statement (zero: none within five years) and the unchanged implementation (returns M) differ there, and nothing is claimed. A case is non-trivial when the answer is not simply the next second. A call of Next that does not return within 5 s (confirmed once per key with 15 s) is a violation; the remaining starts of that window before the transition (then: of that window) are not tried for that schedule and are counted as skipped.")
 
 	// zones
 	zis := make([]*zoneInfo, len(zoneNames))
@@ -1300,6 +1355,21 @@ func run(r *enumx.Run, replay *enumx.ReplayCase) {
 		}
 		r.Set("day_jumps", descs)
 		phase(fmt.Sprintf("day-jumps: %d offset changes of >= 23 h found by scanning %d date-line zones over 1840-2037, each x up to 360 schedules (month: *, the month before / after the jump, every month but that one; dom: *, 1, 1+28-31, 28-31, the day after the jump, odd days; dow: *, 0, 1-5, the weekday after the jump; hour: 0, *, 12) x starts from 40 days before to 2 days after (every 6 h, every 30 min within 6 h, the instant and one second before); %d cases", len(jumps), len(jumpZoneCandidates), nCases), reqs)
+	}
+	// C4. spelled-out full sets in the day pair: a day field written without
+	// '*' / '?' is restricted whatever its values, so with a restricted partner
+	// the either-day rule applies ("0 0 0 13 * sun-sat" fires every day)
+	{
+		specs := fullSetSpecs()
+		starts := fullSetStarts()
+		var reqs []unitReq
+		zs := []string{"UTC", "+05:30", "America/New_York", "Europe/London"}
+		for _, sp := range specs {
+			for _, z := range zs {
+				reqs = append(reqs, unitReq{ID: len(reqs), Zone: z, Spec: sp, Kind: "list", Starts: starts})
+			}
+		}
+		phase(fmt.Sprintf("full-sets: %d schedules (hour 0 / 12, month * / 2; dom x dow pairs in which one or both fields spell out their whole range as lo-hi, lo-hi/1, lo/1, the list, abutting ranges or names, the partner being a value, list, range or step) x zones %v x %d starts over 2021-01-30..2021-03-04 (every 3h7m, alternating .0/.5 s): %d cases", len(specs), zs, len(starts), len(specs)*len(zs)*len(starts)), reqs)
 	}
 	// D. @every
 	{
